@@ -79,6 +79,7 @@ qb_thread_lock(qb_thread_lock_t * tl)
 	{
 		res = -pthread_mutex_lock(&tl->mutex);
 	}
+	QB_VERIF_POINT(QB_VP_THREAD_LOCKED, tl, res, 0);
 	return res;
 }
 
@@ -94,6 +95,7 @@ qb_thread_unlock(qb_thread_lock_t * tl)
 	{
 		res = -pthread_mutex_unlock(&tl->mutex);
 	}
+	QB_VERIF_POINT(QB_VP_THREAD_UNLOCKED, tl, res, 0);
 	return res;
 }
 
